@@ -77,7 +77,9 @@ def run_tlc(module: str, cfg: str | None = None, workers: int | str = "auto", en
             timeout: int = 1800, extra: list[str] | None = None, heap: str = "4g", deque: bool = False) -> TlcResult:
     """Run TLC on spec/<module>.tla with spec/<cfg>. Meta directory is a fresh temp dir removed afterwards."""
     meta = tempfile.mkdtemp(prefix="tlcmeta-", dir=str(OUT))
-    cmd = ["java", "-XX:+UseParallelGC", f"-Xmx{heap}"]
+    gc = ["-XX:+UseParallelGC"] if workers == "auto" or (isinstance(workers, int) and workers > 2) else \
+        ["-XX:+UseSerialGC", "-XX:TieredStopAtLevel=4", "-XX:CICompilerCount=2"]
+    cmd = ["java"] + gc + [f"-Xmx{heap}"]
     if deque:
         cmd.append("-Dtlc2.tool.queue.IStateQueue=StateDeque")
     cmd += ["-cp", f"{TLA_JAR}:{TLA_DEPS}", "tlc2.TLC", "-workers", str(workers), "-metadir", meta,
@@ -132,15 +134,18 @@ class Ctx:
 
     # ---- step 1: exhaustive model check of the reference system
     def model_check(self, module: str, cfg: str, expect_actions: list[str] | None = None, timeout=1800,
-                    workers="auto", env=None, extra=None, heap="6g") -> TlcResult:
+                    workers="auto", env=None, extra=None, heap="6g", coverage=True) -> TlcResult:
+        """coverage=False skips TLC's per-action statistics (they triple the run time of large models);
+        the vacuity check on `expect_actions` is then only done when coverage is on (always in thorough)."""
+        coverage = coverage or self.thorough
         r = run_tlc(module, cfg, workers=workers, env=env, timeout=timeout,
-                    extra=["-coverage", "1"] + (extra or []), heap=heap)
+                    extra=(["-coverage", "1"] if coverage else []) + (extra or []), heap=heap)
         if not r.ok:
             sys.stderr.write(r.out[-6000:])
             raise MachineryError(f"model check {module}/{cfg} failed (rc={r.rc}): the specification itself "
                                  f"violates an invariant or did not run")
         cov = r.coverage()
-        if expect_actions:
+        if expect_actions and coverage:
             never = [a for a in expect_actions if cov.get(a, (0, 0))[1] == 0]
             if never:
                 raise MachineryError(f"vacuity: actions never taken in {module}/{cfg}: {never}")
@@ -208,8 +213,10 @@ class Ctx:
             of.unlink()
             return vs, r.distinct
 
+        t0 = time.time()
         with cf.ThreadPoolExecutor(max_workers=shards) as ex:
             res = list(ex.map(one, range(shards)))
+        self.notes["validate_wall_s"] = round(self.notes.get("validate_wall_s", 0) + time.time() - t0, 1)
         by_id = {}
         for vs, _ in res:
             for v in vs:
